@@ -354,11 +354,9 @@ func alwaysSucceedsTable(c *Check, r *Repo) {
 func ruleNamesOrder(c *Check, r *Repo) {
 	n := 0
 	var bad []string
-	for _, fn := range []string{"Tree.link", "Tree.Compile"} {
-		f := r.ssaFunc("tree", fn)
-		if f == nil {
-			c.Und("R-rule-order", fn, "", "function not found")
-			continue
+	for _, f := range r.allFuncs("tree") {
+		if f.Parent() != nil {
+			continue // closures are scanned with their parent
 		}
 		var scan func(g *ssa.Function)
 		scan = func(g *ssa.Function) {
@@ -425,7 +423,7 @@ func ruleNamesOrder(c *Check, r *Repo) {
 		scan(f)
 	}
 	c.Decide(len(bad) == 0, "R-rule-order", "RuleNames and the rule list grow together", "", fmt.Sprintf("%d append site(s): each appends the node it also pushes to the back of the tree's list, or the element of the in-order first-pass walk", n), strings.Join(bad, "; "))
-	c.Floor("R-rule-order", n, 4)
+	c.Floor("R-rule-order", n, 1)
 }
 
 // expressionTypes: every node type constructed anywhere is known to the oracle.
